@@ -62,6 +62,11 @@ func c05Run(f []string) string {
 		panic(err)
 	}
 	w := &watchedCounter{MatchCounter: aggregation.NewCounter(), delayEvery: atoi(f[6])}
+	renderDelay := 200 * time.Microsecond
+	if len(f) > 7 {
+		renderDelay = time.Duration(atoi(f[7])) * time.Millisecond
+	}
+	var rendersInFlight int32
 	type snap struct {
 		counts  map[string]int64
 		matched uint64
@@ -69,6 +74,10 @@ func c05Run(f []string) string {
 	var mu sync.Mutex
 	var snaps []snap
 	render := func() {
+		if atomic.AddInt32(&rendersInFlight, 1) > 1 {
+			atomic.StoreInt32(&w.overlap, 1) // two writeOutput calls at the same time
+		}
+		defer atomic.AddInt32(&rendersInFlight, -1)
 		atomic.StoreInt32(&w.inRender, 1)
 		if atomic.LoadInt32(&w.inSample) != 0 {
 			atomic.StoreInt32(&w.overlap, 1)
@@ -79,7 +88,7 @@ func c05Run(f []string) string {
 			s.counts[it.Name] = it.Item.Count()
 		}
 		s.matched = ext.MatchedLines()
-		time.Sleep(200 * time.Microsecond)
+		time.Sleep(renderDelay)
 		if atomic.LoadInt32(&w.inSample) != 0 {
 			atomic.StoreInt32(&w.overlap, 1)
 		}
@@ -148,6 +157,18 @@ func c05Gen(r *Rand, tier string) []string {
 		}
 		out = append(out, fmt.Sprintf("agg %s %d %d %d %s %d", HexList([][]byte{data}), Pick(r, []int{1, 2, 4, 8}),
 			Pick(r, []int{1, 2, 7, 1000}), Pick(r, []int{1, 2, 4}), strings.Join(steps, ","), Pick(r, []int{0, 1, 5})))
+	}
+	// slow renders with the input ending while the periodic render is still running: the final render
+	// must wait for it (the unbuffered outputDone hand-shake)
+	ns := 3
+	if tier == "thorough" {
+		ns = 25
+	}
+	for i := 0; i < ns; i++ {
+		data := genLinesSmallKeys(r, Pick(r, []int{3, 20}))
+		// everything is delivered at once; the reader then stalls and reports EOF while the 100ms render runs
+		script := fmt.Sprintf("%d:n,0:n:%d", len(data)+1, Pick(r, []int{103, 108, 115, 125}))
+		out = append(out, fmt.Sprintf("agg %s %d %d %d %s %d %d", HexList([][]byte{data}), Pick(r, []int{1, 2}), 1, 1, script, 0, Pick(r, []int{50, 70})))
 	}
 	return out
 }
